@@ -364,6 +364,48 @@ def dumps(res, ctx, rng):
             continue
         res.count('reassigned_tables_checked')
         res.count('traces_compared_under_reassignment', len(base_traces))
+        # (d) one name under SEVERAL ids (the bundled table itself lists names twice): every movable id gets one to three
+        # ids, listed in the table in random order next to the original, and every record picks one of them on its own -
+        # so the records of one window (a sample and its parts, a call and its lookups) use different ids of one name
+        fan = {}
+        free3 = [i for i in range(0x60000000, 0x60000000 + 4 * len(movable) * 8, 4) if i not in bundled]
+        rng.shuffle(free3)
+        for old_id in movable:
+            fan[old_id] = [free3.pop() for _ in range(rng.choice((1, 2, 3)))] + ([old_id] if rng.random() < 0.5 else [])
+        pairs = [(new, bundled[old_id]) for old_id, news in fan.items() if old_id in bundled for new in news]
+        rng.shuffle(pairs)
+        table3 = {k: v for k, v in bundled.items() if k not in fan}
+        cut3 = rng.randrange(len(table3) + 1)
+        table3 = dict(list(table3.items())[:cut3] + pairs + list(table3.items())[cut3:])
+        evs3 = [ev.mk(e.timestamp, rng.choice(fan[e.eventid]) if e.eventid in fan else e.eventid, e.func_qualifier, e.data,
+                      e.tid) for e in evs]
+        # a START and its END pair by id, and so do the continuation records of a text the kernel splits over several
+        # records of one code: they keep the choice made for their START
+        open_choice = {}
+        for k3, (e, e3) in enumerate(zip(evs, evs3)):
+            if e.eventid in fan and e.func_qualifier == 1:
+                open_choice[(e.tid, e.eventid)] = e3.eventid
+            elif e.eventid in fan and e.func_qualifier in (0, 2) and (e.tid, e.eventid) in open_choice:
+                chosen = open_choice[(e.tid, e.eventid)]
+                if e.func_qualifier == 2:
+                    del open_choice[(e.tid, e.eventid)]
+                evs3[k3] = ev.mk(e.timestamp, chosen, e.func_qualifier, e.data, e.tid)
+        data3 = wire.v2_file(gen.threadmap_for(evs3), 8, gen.events_to_records(evs3))
+        try:
+            trs3 = front(data3, table3, 'traces')
+            cs3 = front(data3, table3, 'callstacks')
+        except Exception as x:
+            res.violation(f'c19-aliased-raises-{core.exc_name(x)}', f'{x!r}', dict(case, file3=data3))
+            continue
+        if [t[1] for t in trs3] != [t[1] for t in base_traces] or cs3 != cs1:
+            k = next((i for i, (a, b) in enumerate(zip(trs3, base_traces)) if a[1] != b[1]), min(len(trs3), len(base_traces)))
+            res.violation('c19-name-under-several-ids', f'supplied table lists names under several ids and the records use any '
+                          f'of them: trace {k} reads {trs3[k][1] if k < len(trs3) else None!r}, under the bundled ids '
+                          f'{base_traces[k][1] if k < len(base_traces) else None!r} ({len(trs3)} vs {len(base_traces)} traces; '
+                          f'callstacks {"equal" if cs3 == cs1 else "differ"})',
+                          dict(case, file3=data3, ids={hex(a): [hex(x) for x in b] for a, b in fan.items()}))
+            continue
+        res.count('tables_with_names_under_several_ids_checked')
 
 
 def run(ctx):
@@ -380,6 +422,7 @@ def run(ctx):
     res.require('table_texts_compared', 50)
     res.require('reduced_tables_checked', 5)
     res.require('reassigned_tables_checked', 5)
+    res.require('tables_with_names_under_several_ids_checked', 5)
     res.require('in_place_edits_checked', 5)
     res.require('tables_with_qualifier_bit_ids_checked', 5)
     res.require('entry_point_comparisons', 10)
